@@ -52,6 +52,13 @@ def make_case(g, shape, tilt=None):
         steps.append(ox.plane('Tilt', tx=Fr(1, 1024), ty=Fr(0)))
     elif tilt == 'wavefront':
         wf = ox.wf(g['lam'], tilt=(Fr(1, 2048), Fr(1, 4096)))
+    elif tilt in ('dispersive', 'grism'):
+        # a dispersive element displacing by half a sample along x: tilt metadata of another class than Tilt
+        x = g['du'][1] / (2 * g['os'])
+        steps.append(ox.plane('DispersiveTilt' if tilt == 'dispersive' else 'Grism',
+                              disp=dict(t1=Fr(0), t0=Fr(0), d0=Fr(1), d1=g['lam'] - x, root=Fr(1))))
+    elif tilt == 'subclass':
+        steps.append(ox.plane('Tilt', tx=Fr(1, 1024), ty=Fr(0)))          # the real object is an instance of a user subclass (see run_one)
     elif tilt == 'fitted':
         # a plane that carries fitted tilt: constant OPD on a full aperture satisfies the spec's least-squares precondition
         steps[0] = ox.plane('Pupil', amp=np.ones_like(g['amp']), opd=3, px=g['dx'], z=g['z'])
@@ -82,12 +89,14 @@ def run(ctx):
             if Kr % os_ == 0 and Kc % os_ == 0:
                 shapes.append(None)                                       # default shape (only where it is unambiguous)
         shapes.append((maxr + 1, max(1, maxc)))                           # first refused
+        # refused because of ONE axis only, the other far inside the grid (non-square requests)
+        shapes.append(rng.choice(((1, maxc + 1), (max(1, maxr - 1), maxc + rng.randint(1, 5)), (maxr + 2, 1))))
         for sh in shapes:
             c = make_case(g, sh)
             c['gi'] = gi
             cases.append(c)
         if rng.random() < 0.3:
-            c = make_case(g, (max(1, maxr), max(1, maxc)), tilt=rng.choice(('plane', 'wavefront', 'fitted')))
+            c = make_case(g, (max(1, maxr), max(1, maxc)), tilt=rng.choice(('plane', 'wavefront', 'fitted', 'dispersive', 'grism', 'subclass')))
             c['gi'] = gi
             cases.append(c)
     for i, c in enumerate(cases):
@@ -101,7 +110,22 @@ def run(ctx):
         c2['steps'] = [dict(s) for s in c['steps']]
         if scratch is not None:
             c2['steps'][-1]['scratch'] = scratch
-        real = ox.run_real(lentil, c2)
+        hook = None
+        if c['tilt'] == 'subclass':
+            import sys
+            base = sys.modules['lentil.plane'].TiltInterface
+
+            class UserTilt(base):
+                def __init__(self, x, y):
+                    super().__init__()
+                    self.ux, self.uy = x, y
+
+                def shift(self, xs=0, ys=0, z=0, **kwargs):
+                    return xs - z * self.uy, ys - z * self.ux
+
+            def hook(p, st):
+                return UserTilt(p.y, p.x) if st['cls'] == 'Tilt' else p          # (Tilt stores its arguments swapped)
+        real = ox.run_real(lentil, c2, plane_hook=hook)
         for (k, kind, detail) in ox.compare(c, spec[c['id']]['obs'], real):
             ctx.violation(sig_of(c, kind, mode), dict(detail, step=k, K=c['K'], pupil=c['pupil'], shape=c['steps'][-1]['shape'], os=c['os']),
                           case={'case': c, 'spec': spec[c['id']], 'mode': mode})
